@@ -75,6 +75,23 @@ def run(ctx):
                "the integral of a PSD integrand is PSD (limit of sums of congruences)")
     from props import helpers as _helpers_psd
     ctx.guard(_helpers_psd.lean_psd, ctx, "C08", ['Pvx.congr_psd', 'Pvx.sum_psd', 'Pvx.composed_noise_psd', 'Pvx.predict_psd'])
+    ctx.guard(_helpers_psd.lean_kalman, ctx, "C08", ['Pvx.vanloan_composition'])
+    # a construct of the Van Loan function that the W domain does not interpret is an engine limit OF THIS SECTION: the
+    # other sections (composition lemma, joint model, the float64 stand-in, frames) still run and carry their own verdicts
+    ctx.guard(_vanloan, ctx, py)
+    ctx.guard(_composition_lemma, ctx)
+    ctx.guard(_joint, ctx, py)
+    ctx.guard(_standin, ctx, py)
+
+    # the joint model is assembled from the sensor models' layout (C14's contract), re-established here on a few masks
+    from props import C14 as _C14
+    ctx.guard(_C14.layout_subset, ctx, py, "C08")
+    # frame of the modules under contract (no state kept between calls, arguments left alone): same analysis as C19
+    from props import C19 as _C19
+    ctx.guard(_C19.frame_obligations, ctx, py, "C08", {'kalman', 'util', 'filters'})
+
+
+def _vanloan(ctx, py):
     t0 = time.time()
 
     def body():
@@ -140,16 +157,6 @@ def run(ctx):
         dty = [x for x in o["log"] if x[0] == "alloc_dtype_from_argument"]
         ctx.ob("C08.vanloan.alloc_dtype" + sfx, "f", not dty, "stub-log", 0.0, "work matrix allocated as float64 independently of the arguments' dtypes" + pc,
                cex=None if not dty else dict(allocation=dty), native=None if not dty else _native_dtype(py))
-    ctx.guard(_composition_lemma, ctx)
-    ctx.guard(_joint, ctx, py)
-    ctx.guard(_standin, ctx, py)
-
-    # the joint model is assembled from the sensor models' layout (C14's contract), re-established here on a few masks
-    from props import C14 as _C14
-    ctx.guard(_C14.layout_subset, ctx, py, "C08")
-    # frame of the modules under contract (no state kept between calls, arguments left alone): same analysis as C19
-    from props import C19 as _C19
-    ctx.guard(_C19.frame_obligations, ctx, py, "C08", {'kalman', 'util', 'filters'})
 
 
 def _composition_lemma(ctx):
